@@ -569,6 +569,12 @@ Section Model.
   (* ============================================================ NormalDerivative Jump Average Minus Plus *)
   Definition is_side_op (o : op1) : bool := match o with OMinus | OPlus => true | _ => false end.
 
+  (* The product arm (numeric / Constant coefficients [a] are pulled out first by all five):
+       NormalDerivative  a derivation: 0 on a product of coefficients only, Leibniz rule on the other factors
+       Jump / Average    Jump of coefficients only = 0 (Average: the coefficient); one other factor: recursion;
+                         several: NO rewriting, a * Jump(f*g) (neither a derivation nor multiplicative)
+       Minus / Plus      multiplicative: a * prod_i minus(f_i)
+     [fallback] is the except: branch (a constructor called inside raised). *)
   Fixpoint mk_iface (fuel : nat) (o : op1) (e : gexpr) : res :=
     match fuel with
     | 0 => NoFuel
@@ -580,21 +586,37 @@ Section Model.
             let vectors := filter (fun a => negb (is_coeff a)) l in
             let a := gmul coeffs in
             let fallback := Ok (gmul [a; G1 o (gmul_raw vectors)]) in
-            match vectors with
-            | [] => Ok a
-            | [f] => match mk_iface k o f with Ok b => Ok (gmul [a; b]) | Raise => fallback | NoFuel => NoFuel end
-            | [f; g] =>
-                match mk_iface k o g, mk_iface k o f with
-                | Ok cg, Ok cf => Ok (gmul [a; gadd [gmul [f; cg]; gmul [g; cf]]])
-                | NoFuel, _ | _, NoFuel => NoFuel
-                | _, _ => fallback
+            match o with
+            | OMinus | OPlus =>
+                (* b = Mul( *[cls(f) for f in vectors]) *)
+                match mapM (mk_iface k o) vectors with
+                | (Ok _, rs) => Ok (gmul [a; gmul rs])
+                | (Raise, _) => fallback
+                | (NoFuel, _) => NoFuel
                 end
-            | lft :: rest =>
-                let rgt := gmul_raw rest in
-                match mk_iface k o lft, mk_iface k o rgt with
-                | Ok fl, Ok fr => Ok (gmul [a; gadd [gmul [lft; fr]; gmul [fl; rgt]]])
-                | NoFuel, _ | _, NoFuel => NoFuel
-                | _, _ => fallback
+            | OJump | OAvg =>
+                match vectors with
+                | [] => Ok (gmul [a; match o with OJump => gzero | _ => gone end])
+                | [f] => match mk_iface k o f with Ok b => Ok (gmul [a; b]) | Raise => fallback | NoFuel => NoFuel end
+                | _ => fallback
+                end
+            | _ =>                                   (* NormalDerivative *)
+                match vectors with
+                | [] => Ok (gmul [a; gzero])
+                | [f] => match mk_iface k o f with Ok b => Ok (gmul [a; b]) | Raise => fallback | NoFuel => NoFuel end
+                | [f; g] =>
+                    match mk_iface k o g, mk_iface k o f with
+                    | Ok cg, Ok cf => Ok (gmul [a; gadd [gmul [f; cg]; gmul [g; cf]]])
+                    | NoFuel, _ | _, NoFuel => NoFuel
+                    | _, _ => fallback
+                    end
+                | lft :: rest =>
+                    let rgt := gmul_raw rest in
+                    match mk_iface k o lft, mk_iface k o rgt with
+                    | Ok fl, Ok fr => Ok (gmul [a; gadd [gmul [lft; fr]; gmul [fl; rgt]]])
+                    | NoFuel, _ | _, NoFuel => NoFuel
+                    | _, _ => fallback
+                    end
                 end
             end
         | G1 ODn u =>
@@ -630,8 +652,13 @@ Section Model.
         match e with
         | GAdd _ => "add"
         | GMul l =>
-            match filter (fun a => negb (is_coeff a)) l with
-            | [] => "mul-coeffs" | [_] => "mul-one" | [_; _] => "mul-two" | _ => "mul-many"
+            match o, filter (fun a => negb (is_coeff a)) l with
+            | _, [] => "mul-coeffs"
+            | (OMinus | OPlus), _ => "mul-restrict-factors"
+            | _, [_] => "mul-one"
+            | (OJump | OAvg), _ => "mul-keep-product"
+            | _, [_; _] => "mul-two"
+            | _, _ => "mul-many"
             end
         | G1 ODn _ => if is_side_op o then "normal-derivative" else "atom"
         | GNormal => "normal-vector"
@@ -1027,7 +1054,7 @@ Fixpoint laplace_guard (d : nat) (e : gexpr) : bool :=
   | _ => true
   end.
 
-(* Bracket.eval / the interface operators apply a Leibniz rule to products: the factors must be scalars *)
+(* Bracket.eval / NormalDerivative.eval apply a Leibniz rule to products: the factors must be scalars *)
 Fixpoint bracket_guard (d : nat) (a : gexpr) : bool :=
   match a with
   | GAdd l => forallb (bracket_guard d) l
@@ -1035,25 +1062,29 @@ Fixpoint bracket_guard (d : nat) (a : gexpr) : bool :=
   | _ => true
   end.
 
-(* NormalDerivative is a derivation (Leibniz rule sound on scalar factors); Jump / Average / Minus / Plus are
-   sound on products with at most one non-coefficient factor; Jump and Dn of a product of coefficients
-   only are wrong (they return the product); minus(Dn(u)) is covered for u a scalar function *)
+(* What is left of the guard of the interface operators (nothing about products or constants any more):
+   - NormalDerivative applies the Leibniz rule to products: every factor must be a scalar (typing: Dn is the
+     normal derivative of a SCALAR; gsem reads entry (0,0) of the factors);
+   - minus(Dn(u)) / plus(Dn(u)) -> Dot(Grad(minus(u)), minus(n)) is proved for u a scalar function only (the
+     general case composes mk_iface, mk_grad and mk_bil and would need their guards on the intermediate results).
+   For Jump and Average the guard is identically true ([iface_guard_jump_avg] in Proofs/ConstructorsP.v). *)
 Fixpoint iface_guard (d : nat) (o : op1) (e : gexpr) : bool :=
   match e with
   | GAdd l => forallb (iface_guard d o) l
   | GMul l =>
-      let v := filter (fun a => negb (is_coeff a)) l in
       match o with
-      | ODn => negb (match v with [] => true | _ => false end) &&
-               forallb (fun x => is_coeff x || (is_scalar d x && iface_guard d o x)) l
-      | _ =>
-          match v with
-          | [] => match o with OMinus | OPlus | OAvg => true | _ => false end
-          | [_] => forallb (fun x => is_coeff x || iface_guard d o x) l
-          | _ => false
-          end
+      | ODn => forallb (fun x => is_coeff x || (is_scalar d x && iface_guard d o x)) l
+      | _ => forallb (fun x => is_coeff x || iface_guard d o x) l
       end
   | G1 ODn u => if is_side_op o then (match u with GSF _ => true | _ => false end) else true
+  | _ => true
+  end.
+
+(* no NormalDerivative application among the summands / factors that the recursion of mk_iface reaches *)
+Fixpoint dn_free (e : gexpr) : bool :=
+  match e with
+  | GAdd l | GMul l => forallb dn_free l
+  | G1 ODn _ => false
   | _ => true
   end.
 
